@@ -290,6 +290,20 @@ def r_schema(model, rep, qname, floor_keys):
                 rguards = [g for g in r.guards]
                 guarded_read = any(T.contains(g[0], lambda x: x[0] == "call" and x[1][0] == "attr" and x[1][2] in ("has_option", "has_section")) or
                                    T.contains(g[0], lambda x: x[0] == "cmp" and x[1] == ("in",) and x[2][0] == ("const", k)) for g in rguards)
+                # a read guarded by has_option must probe the very (section, option) it reads: probing another place never
+                # finds the option, and the value the writer stored is silently ignored
+                for g in rguards:
+                    for x in T.walk(g[0]):
+                        if x[0] == "call" and x[1][0] == "attr" and x[1][2] == "has_option" and len(x[2]) == 2 and len(s[0]) == 2 \
+                                and g[1] is True and x[2][1] in (("const", k), s[0][1]):
+                            okp = wcx.norm(x[2][0]) == s[0][0] or T.show(x[2][0]) == T.show(s[0][0])
+                            rep.ob("R-SCHEMA", "%s:probe:%s" % (qname, k), okp, site="%s:%s" % (cls.module.rel(), r.ev.lineno),
+                                   msg="" if okp else "option %r is read from section %s but its presence is probed in %s" % (
+                                       k, T.show(s[0][0]), T.show(x[2][0])))
+                        elif x[0] == "call" and x[1][0] == "attr" and x[1][2] == "has_option" and len(x[2]) == 2 and len(s[0]) == 2 \
+                                and g[1] is True and x[2][0] in (("const", k), s[0][1]):
+                            rep.ob("R-SCHEMA", "%s:probe:%s" % (qname, k), False, site="%s:%s" % (cls.module.rel(), r.ev.lineno),
+                                   msg="has_option(%s, %s): section and option are swapped" % (T.show(x[2][0]), T.show(x[2][1])))
                 if conditional:
                     okc = s[1] == "soft" or guarded_read
                     rep.ob("R-SCHEMA", "%s:optional:%s" % (qname, k), okc, site="%s:%s" % (cls.module.rel(), r.ev.lineno),
